@@ -326,9 +326,58 @@ func (fc *FnCtx) constVal(c *ssa.Const) Val {
 	return Val{T: "0", Sort: so, Ty: ty}
 }
 
-func (fc *FnCtx) floatConst(s string) string {
+func (fc *FnCtx) floatConst(s string) string { return fc.eng.floatConst(s) }
+
+// floatConst: float literals are global opaque constants; the order between two literals is the
+// only arithmetic fact about floats the theory contains (exact rational comparison).
+func (e *Engine) floatConst(s string) string {
+	if n, ok := e.fltLits[s]; ok {
+		return n
+	}
 	n := "flt_" + sanitize(s)
-	fc.sc.Header("flt:"+s, fmt.Sprintf("(declare-const %s Float)", n))
+	var b strings.Builder
+	fmt.Fprintf(&b, "(declare-const %s Float)\n", n)
+	v := constant.MakeFromLiteral(s, token.FLOAT, 0)
+	if strings.Contains(s, "/") {
+		parts := strings.SplitN(s, "/", 2)
+		v = constant.BinaryOp(constant.MakeFromLiteral(parts[0], token.INT, 0), token.QUO, constant.MakeFromLiteral(parts[1], token.INT, 0))
+	} else if !strings.ContainsAny(s, ".eE") {
+		v = constant.ToFloat(constant.MakeFromLiteral(s, token.INT, 0))
+	}
+	if e.fltVals == nil {
+		e.fltVals = map[string]constant.Value{}
+	}
+	for o, on := range e.fltLits {
+		ov := e.fltVals[o]
+		if v.Kind() == constant.Unknown || ov.Kind() == constant.Unknown {
+			continue
+		}
+		for _, p := range [][2]string{{n, on}, {on, n}} {
+			x, y := v, ov
+			if p[0] == on {
+				x, y = ov, v
+			}
+			tf := func(b bool) string {
+				if b {
+					return ""
+				}
+				return "not "
+			}
+			wrap := func(neg, t string) string {
+				if neg == "" {
+					return t
+				}
+				return "(not " + t + ")"
+			}
+			fmt.Fprintf(&b, "(assert %s)\n", wrap(tf(constant.Compare(x, token.LSS, y)), fmt.Sprintf("(float_lt %s %s)", p[0], p[1])))
+			fmt.Fprintf(&b, "(assert %s)\n", wrap(tf(constant.Compare(x, token.LEQ, y)), fmt.Sprintf("(float_le %s %s)", p[0], p[1])))
+			fmt.Fprintf(&b, "(assert %s)\n", wrap(tf(constant.Compare(x, token.GTR, y)), fmt.Sprintf("(float_gt %s %s)", p[0], p[1])))
+			fmt.Fprintf(&b, "(assert %s)\n", wrap(tf(constant.Compare(x, token.GEQ, y)), fmt.Sprintf("(float_ge %s %s)", p[0], p[1])))
+		}
+	}
+	e.fltLits[s] = n
+	e.fltVals[s] = v
+	e.strLitDecls = append(e.strLitDecls, b.String())
 	return n
 }
 
@@ -996,10 +1045,17 @@ func (fc *FnCtx) loopEntry(fr *frame, st *State, li *loopInfo) {
 			fc.oblige(pre, fmt.Sprintf("loop%d.inv%d.entry", li.ord, i), g, blockPos(li.header), inv.Text)
 		}
 	}
+	for _, g := range fc.frameGoals(pre) {
+		fc.oblige(pre, fmt.Sprintf("loop%d.frame.entry", li.ord), g.goal, blockPos(li.header), g.text)
+	}
 	fc.havocLoop(st, li)
 	env2 := fc.loopEnv(fr, st, li)
 	for _, a := range auto {
 		fc.assume(st, a(st))
+	}
+	// the function's frame is an invariant of every loop (checked at entry and on the back edge)
+	for _, g := range fc.frameGoals(st) {
+		fc.assume(st, g.goal)
 	}
 	if ls != nil {
 		for _, inv := range ls.Invariants {
@@ -1023,6 +1079,9 @@ func (fc *FnCtx) loopDec(fr *frame, li *loopInfo, t string) {
 
 func (fc *FnCtx) loopBack(fr *frame, st *State, li *loopInfo) {
 	ls := fc.loopSpec(fr, li)
+	for _, g := range fc.frameGoals(st) {
+		fc.oblige(st, fmt.Sprintf("loop%d.frame.preserved", li.ord), g.goal, blockPos(li.header), g.text)
+	}
 	if ls == nil {
 		return
 	}
@@ -1045,10 +1104,15 @@ func (fc *FnCtx) autoInvariants(fr *frame, li *loopInfo) []func(*State) string {
 	h := li.header
 	var idxAlloc *ssa.Alloc
 	var lim ssa.Value
+	lowest := "(- 1)"
 	for _, in := range h.Instrs {
 		if st, ok := in.(*ssa.Store); ok {
-			if al, ok := st.Addr.(*ssa.Alloc); ok && al.Comment == "rangeindex" {
+			if al, ok := st.Addr.(*ssa.Alloc); ok && (al.Comment == "rangeindex" || al.Comment == "rangeint.iter") {
 				idxAlloc = al
+				if al.Comment == "rangeint.iter" {
+					// for i := range n: the header is the body; 0 <= iter < n there
+					lowest = "0"
+				}
 			}
 		}
 		if bo, ok := in.(*ssa.BinOp); ok && bo.Op == token.LSS && idxAlloc != nil {
@@ -1062,7 +1126,7 @@ func (fc *FnCtx) autoInvariants(fr *frame, li *loopInfo) []func(*State) string {
 			}
 			al := idxAlloc
 			res = append(res, func(st *State) string {
-				return and(app("<=", "(- 1)", st.locals[al]), app("<", st.locals[al], app("+", lv.T, "0")), app("<=", "0", lv.T))
+				return and(app("<=", lowest, st.locals[al]), app("<", st.locals[al], lv.T), app("<=", "0", lv.T))
 			})
 			// note: rangeindex < len holds at the head because the body only runs when index+1 < len
 		}
